@@ -96,12 +96,14 @@ def corpus_cases(start):
     S, E = histgen.Struct, histgen.Embed
     F = histgen.SField
     src = histgen.HFile("model.go", [
-        S("Inner", [F("Deep", "string")]), S("Extra", [F("Tail", "string")]), S("Third", [F("Yonder", "int")]),
+        S("Core", [F("Nub", "string")]), S("Inner", [E("Core", ptr=True), F("Deep", "string")]),
+        S("Extra", [F("Tail", "string")]), S("Third", [F("Yonder", "int")]),
         S("Order", [E("Inner", ptr=True), E("Extra", ptr=True), E("Third", ptr=True), F("Id", "int"), F("Pole", "string"), F("Mast", "string")]),
         S("Bill", [E("Extra", ptr=True), E("Inner", ptr=True), F("Id", "int")])])
     dest = histgen.HFile("dest.go", [
         S("Dinner", [F("Pole", "string")]), S("Dextra", [F("Mast", "string")]),
-        S("Order", [E("Dinner", ptr=True), E("Dextra", ptr=True), F("Id", "int"), F("Deep", "string"), F("Tail", "string"), F("Yonder", "int")]),
+        S("Order", [E("Dinner", ptr=True), E("Dextra", ptr=True), F("Id", "int"), F("Deep", "string"), F("Tail", "string"), F("Yonder", "int"),
+                    F("Nub", "string")]),
         S("Bill", [F("Id", "int"), F("Deep", "string"), F("Tail", "string")])])
     ms = histgen.Pkg("map", "src", [src], [], dest=[dest], destname="dest")
     sel = ["Order", "Bill"]
